@@ -162,6 +162,17 @@ def outMediaType (t : Target) (m : MT) : MTOut :=
       | none => .err
     | _ => .ok (gzipTargetMT m)
 
+/-- Which source encodings a builder reads: `estargz.Build` sniffs gzip, zstd and plain tar
+(build.go `decompressBlob`); `Writer.AppendTarLossLess` only gzip and plain tar — a zstd source is
+parsed as a tar and the conversion returns an error. -/
+def readable (t : Target) (content : Comp) : Bool :=
+  !(t == .extTocLossless && content == .zstd)
+
+/-- The table row for a source whose bytes are really encoded as `content` (which may differ from
+what the media type says): an unreadable layer is an error, otherwise `outMediaType`. -/
+def outMediaTypeFor (t : Target) (m : MT) (content : Comp) : MTOut :=
+  if isLayerType m && !readable t content then .err else outMediaType t m
+
 /-! ## Content store (after containerd plugins/content/local) -/
 
 /-- Kind of a writer ref: `convert-estargz-from-<d>`, `convert-zstdchunked-from-<d>`,
